@@ -24,9 +24,22 @@ pub const N_VARIANTS: usize = 4;
 pub struct BaseSpec {
     pub n: usize,
     pub peers: usize,
-    /// 0 = large info values (5-byte timestamp varint), 1 = small info values (1-byte varints)
+    /// index into INFO_FLAVOURS (0 = the default info values, 1 = 1-byte varints, 2.. = varint boundary values)
     pub flavour: u8,
 }
+
+/// (timestamp, segment id) of the base segment per flavour. Segment ids cover every varint shape of a
+/// 16-bit value (1, 2 and 3 bytes; 0x4000.. puts value bits 14.. into a third byte whose spare bits are
+/// multiples of 65536), timestamps cover 1-byte and 5-byte varints incl. a full top byte.
+pub const INFO_FLAVOURS: [(u32, u16); 7] = [
+    (1_700_000_000, 0x1234),
+    (5, 7),
+    (u32::MAX, 0x3fff),
+    (0x8000_0000, 0x4000),
+    (0x1000_0000, 0x8001),
+    (1_700_000_000, 0xffff),
+    (0x0fff_ffff, 0x007f),
+];
 
 struct VariantParams {
     ts: u32,
@@ -35,15 +48,15 @@ struct VariantParams {
     if_off: u16,
 }
 fn variant_params(spec: &BaseSpec, v: usize) -> VariantParams {
-    let (ts, seg_id) = if spec.flavour == 0 { (1_700_000_000u32, 0x1234u16) } else { (5, 7) };
+    let (ts, seg_id) = INFO_FLAVOURS[spec.flavour as usize % INFO_FLAVOURS.len()];
     match v {
-        0 => VariantParams { ts, seg_id, sign_ts: ts + 100, if_off: 0 },
+        0 => VariantParams { ts, seg_id, sign_ts: ts.wrapping_add(100), if_off: 0 },
         // other segment info (hence other MACs, other entry values)
-        1 => VariantParams { ts: ts + 3600, seg_id: seg_id ^ 0x0505, sign_ts: ts + 100, if_off: 0 },
+        1 => VariantParams { ts: ts ^ 0x0e10, seg_id: seg_id ^ 0x0505, sign_ts: ts.wrapping_add(100), if_off: 0 },
         // same info, same entry values, signed again later (other signature-header timestamp)
-        2 => VariantParams { ts, seg_id, sign_ts: ts + 200, if_off: 0 },
+        2 => VariantParams { ts, seg_id, sign_ts: ts.wrapping_add(200), if_off: 0 },
         // same info, other interfaces (other entry values)
-        _ => VariantParams { ts, seg_id, sign_ts: ts + 100, if_off: 100 },
+        _ => VariantParams { ts, seg_id, sign_ts: ts.wrapping_add(100), if_off: 100 },
     }
 }
 
@@ -276,7 +289,17 @@ pub fn apply(t: &Tamper, ctx: &BaseCtx) -> cp::PathSegment {
 }
 
 /// All tampers of one base. `masks`: XOR masks applied to every byte (8 one-bit masks or all 255).
-pub fn tampers(ctx: &BaseCtx, all_masks: bool) -> Vec<Tamper> {
+pub fn tampers(ctx: &BaseCtx, all_masks: bool, info_only: bool) -> Vec<Tamper> {
+    if info_only {
+        let masks: Vec<u8> = if all_masks { (1..=255u8).collect() } else { (0..8).map(|b| 1u8 << b).collect() };
+        let mut out = vec![Tamper::None];
+        for byte in 0..ctx.msgs[0].segment_info.len() {
+            for &mask in &masks {
+                out.push(Tamper::XorInfo { byte, mask });
+            }
+        }
+        return out;
+    }
     let n = ctx.spec.n;
     let m = &ctx.msgs[0];
     let masks: Vec<u8> = if all_masks { (1..=255u8).collect() } else { (0..8).map(|b| 1u8 << b).collect() };
@@ -531,35 +554,46 @@ pub fn run_case(w: &World, ctx: &BaseCtx, t: &Tamper, agg: &mut Agg, verbose: bo
     }
 }
 
-fn base_specs(thorough: bool) -> Vec<(BaseSpec, bool)> {
-    // (spec, all 255 byte masks?)
+fn base_specs(thorough: bool) -> Vec<(BaseSpec, bool, bool)> {
+    // (spec, all 255 byte masks?, segment_info tampers only?)
     let mut v = vec![];
     let max_n = if thorough { 5 } else { 3 };
     let peer_set: &[usize] = if thorough { &[0, 1, 2] } else { &[0, 1] };
     for n in 1..=max_n {
         for &peers in peer_set {
-            v.push((BaseSpec { n, peers, flavour: 0 }, false));
+            v.push((BaseSpec { n, peers, flavour: 0 }, false, false));
         }
     }
     if thorough {
         for n in 1..=5 {
-            v.push((BaseSpec { n, peers: 1, flavour: 1 }, false));
+            v.push((BaseSpec { n, peers: 1, flavour: 1 }, false, false));
         }
         // every single-byte substitution (all 255 XOR masks per byte)
         for n in 1..=3 {
-            v.push((BaseSpec { n, peers: 1, flavour: 0 }, true));
+            v.push((BaseSpec { n, peers: 1, flavour: 0 }, true, false));
         }
     } else {
-        v.push((BaseSpec { n: 2, peers: 1, flavour: 1 }, false));
+        v.push((BaseSpec { n: 2, peers: 1, flavour: 1 }, false, false));
+    }
+    // every (timestamp, segment id) varint shape: the segment_info tampers (quick: bit flips on 2
+    // entries; thorough: all byte substitutions, and the full tamper set on 2 entries)
+    for flavour in 1..INFO_FLAVOURS.len() as u8 {
+        v.push((BaseSpec { n: 2, peers: 0, flavour }, thorough, true));
+        if thorough {
+            v.push((BaseSpec { n: 5, peers: 1, flavour }, false, true));
+            if flavour > 1 {
+                v.push((BaseSpec { n: 2, peers: 1, flavour }, false, false));
+            }
+        }
     }
     v
 }
 
 pub fn enumerate(w: &World, thorough: bool, total: &mut Agg) -> String {
     let specs = base_specs(thorough);
-    for (spec, all_masks) in &specs {
+    for (spec, all_masks, info_only) in &specs {
         let ctx = build_base(w, *spec, total);
-        let ts = tampers(&ctx, *all_masks);
+        let ts = tampers(&ctx, *all_masks, *info_only);
         let parts: Vec<Agg> = ts
             .par_chunks(128)
             .map(|chunk| {
@@ -575,7 +609,7 @@ pub fn enumerate(w: &World, thorough: bool, total: &mut Agg) -> String {
         }
     }
     format!(
-        "sig: base segments n=1..{} entries x peers {} (+ small-varint info flavour{}), 4 reference-signed variants each; ALL single-bit flips of every header_and_body / signature / segment_info, all swaps, rotations, deletions, back-truncations, duplications (every src x every position), splice replace/insert of every entry of 3 sibling segments at every position, key substitutions (every other AS key, fresh key, error) and (r,n-s) per entry; every entry validated after every tamper",
+        "sig: base segments n=1..{} entries x peers {} (+ small-varint info flavour{}; + ALL segment_info flips on 2-entry segments for every (timestamp, segment id) varint shape: ids 7,0x7f,0x3fff,0x4000,0x8001,0xffff, timestamps 5,0x0fffffff,0x10000000,0x80000000,u32::MAX), 4 reference-signed variants each; ALL single-bit flips of every header_and_body / signature / segment_info, all swaps, rotations, deletions, back-truncations, duplications (every src x every position), splice replace/insert of every entry of 3 sibling segments at every position, key substitutions (every other AS key, fresh key, error) and (r,n-s) per entry; every entry validated after every tamper",
         if thorough { 5 } else { 3 },
         if thorough { "{0,1,2}" } else { "{0,1}" },
         if thorough { "; all 255 byte substitutions of every byte for n<=3" } else { "" },
